@@ -51,6 +51,16 @@ CLAIMS["C03"] = dict(
   text="On /repo's current tree: both Context::show sites of eval_query and the Number divisions feeding them are unreachable once the accepting edges of `top.unit == bottom.unit` on exactly those two operands are deleted; the failing edge of the same test builds QueryError::Conformance from conformance_err of the same operands; the value shown is Div for &Number of those operands, whose zero test is the exact Numeric comparison and whose callee closure contains no unguarded float-introducing site; conformance_err ties the reciprocal hint to top*bottom being dimensionless and does its unit arithmetic on operands whose value was reset to exactly 1 (so a zero side cannot turn the error into a crash); substance property replies for a target are built only behind a dimensionality comparison. Decides refusal and exactness structure for all inputs; `x*t = v` over the ~4000 database units is data and not claimed.",
   note="Trusted: driver, callee resolution, num-rational's exact arithmetic (exactness below the BigRat wrapper is C01's clause).",
   design_ref="DESIGN.md section 4, C03")
+CLAIMS["C09"] = dict(
+  technique="gate (cut-set) + def-use threading rules on the MIR of to_list, callee-shape facts of Numeric::div_rem, K4 guarded float-reachability, data check of the breakdown units",
+  text="Decides on /repo's current tree that unit-list decomposition has the structure the law needs: both conformance gates cut every division; each non-last unit is consumed by div_rem of the running value, the pushed part is that call's quotient and the running value becomes that call's remainder; the last unit takes the exact quotient; every part pushed is one of those two quotients; divisions are behind an exact zero test of the unit's value; div_rem's rational arm is a truncating BigInt quotient with remainder left - right*quotient and no flooring helper; no float can be introduced on rational operands; the automatic duration reply is built from to_list's items behind `unit == s` over year..second (defined, time-valued, descending in the data). The mixed-radix identity itself is arithmetic over values and is not claimed.",
+  note="Trusted: driver, num-bigint's truncating division, the data-file reader.",
+  design_ref="DESIGN.md section 4, C09")
+CLAIMS["C10"] = dict(
+  technique="table extraction from HIR + exact rational folding of the data files against a reviewed textbook table + mirror-structure def-use on MIR + gates + K4",
+  text="The six (zero constant, scale unit) pairs are extracted from Degree::name_base_scale and their exact values folded from definitions.units must equal the textbook affine constants (and be temperatures with non-zero scale); the suffix arm is x*lookup(scale)+lookup(zero) and the conversion arm (v-lookup(zero))/lookup(scale), each taking both names from one name_base_scale call and using Number's exact operators (no float-introducing site), so for every rational x the two maps are inverses and cross-scale conversion equals the textbook formula; the suffix is gated on dimensionless operands, the conversion on the conformance test, compound targets refuse scales; every variant has lexer spellings, no spelling is shared, Display prints a spelling of its own variant. This decides the property for all x and all 36 pairs given exact Number arithmetic (C01).",
+  note="Trusted: tables/temperature_textbook.json (reviewed by hand), the data-file reader/folder, exactness of num-rational.",
+  design_ref="DESIGN.md section 4, C10")
 NA = {
  "C05": "digit strings, recurring-block offsets and the 1-ulp truncation bound are number-theoretic facts about runtime values of p/q and the base; no structural clause is a genuine necessary condition (DESIGN.md section 4, C05)",
 }
